@@ -175,6 +175,8 @@ def respond (t : JoinTable) (op : String) (args : List Bytes) : String :=
   | "cli.compareAllOut", gh :: ue :: us :: un :: we :: ws :: wn :: files =>
     let r := CompareView.compareAllOut (tableEngine t) ⟨ue, us, un, we, ws, wn⟩ Parser.sortedOrd Parser.sortedOrd (gh == ['1']) (decodeTree files)
     "ok " ++ (if r.2 then "01" else "00") ++ " " ++ toHexArg r.1
+  | "path.clean", [p] => "ok " ++ toHexArg (Path.clean p)
+  | "path.join", elems => "ok " ++ toHexArg (Path.join elems)
   | "compare.view", [id, cur, gen] => "ok " ++ toHexArg (CompareView.changedText id cur gen)
   | "cli.compare", ue :: us :: un :: we :: ws :: wn :: arg :: files =>
     let r := Cli.compareCmd (tableEngine t) ⟨ue, us, un, we, ws, wn⟩ Parser.sortedOrd Parser.sortedOrd (decodeTree files) arg
